@@ -246,7 +246,7 @@ sLUMemInit(fact_t fact, void *work, int_t lwork, int m, int n, int_t annz,
 	    xusub  = suser_malloc((n+1) * iword, HEAD, Glu);
 	    if ( !xsup || !supno || !xlsub || !xlusup || !xusub ) {
 		SUPERLU_FREE(Glu->expanders); Glu->expanders = NULL;
-		return (smemory_usage(nzlmax, nzumax, nzlumax, n) + n);
+		return (SUPERLU_MAX(1, smemory_usage(nzlmax, nzumax, nzlumax, n)) + n); /* > n also when n = 0 */
 	    }
 	}
 
@@ -273,7 +273,7 @@ sLUMemInit(fact_t fact, void *work, int_t lwork, int m, int n, int_t annz,
 	    nzlumax /= 2;
 	    nzumax /= 2;
 	    nzlmax /= 2;
-	    if ( nzlumax < annz ) {
+	    if ( nzlumax < annz || nzlumax == 0 ) { /* cannot shrink any further */
 		printf("Not enough memory to perform factorization.\n");
 		if ( Glu->MemModel == SYSTEM ) {
 		    SUPERLU_FREE(xsup);
@@ -283,7 +283,7 @@ sLUMemInit(fact_t fact, void *work, int_t lwork, int m, int n, int_t annz,
 		    SUPERLU_FREE(xusub);
 		}
 		SUPERLU_FREE(Glu->expanders); Glu->expanders = NULL;
-		return (smemory_usage(nzlmax, nzumax, nzlumax, n) + n);
+		return (SUPERLU_MAX(1, smemory_usage(nzlmax, nzumax, nzlumax, n)) + n); /* > n also when n = 0 */
 	    }
 #if ( PRNTlevel >= 1)
 	    printf("sLUMemInit() reduce size: nzlmax %ld, nzumax %ld\n", 
